@@ -1,7 +1,7 @@
 (* C04  A reference used as a layer merges like the inline value.  Statements only; proofs in
    Proofs/RefFacts.v (with StateFacts.v, StateIndep.v, InterpFacts.v) about the ValueList arm of
    Model/Interp.v. *)
-From RV Require Import Model.Interp Proofs.WfFacts Proofs.InterpFacts Proofs.RefFacts.
+From RV Require Import Model.Interp Proofs.WfFacts Proofs.InterpFacts Proofs.RefFacts Proofs.Twin.
 
 (** In a multiply-defined parameter (at any nesting depth: the statement is about an arbitrary
     ValueList node), a layer x that renders to v merges exactly as if v had been written inline
@@ -29,6 +29,76 @@ Theorem C04_layer_loop_uses_values_only :
     forall r, vlist_loop call st (pre ++ x :: post) r = vlist_loop call st (pre ++ v :: post) r.
 Proof. exact vlist_loop_transparent. Qed.
 Eval cbv in "ASSUMPTIONS-OF C04_layer_loop_uses_values_only"%string. Print Assumptions C04_layer_loop_uses_values_only.
+
+(** End to end, "exactly as if the rendered referenced value had been written inline at that
+    position ... at any nesting depth": [twe root] relates two parameter mappings entry by entry --
+    same keys and flags, values equal except that, anywhere inside (as a layer of a multiply-defined
+    parameter, inside a member of a layer, in a list, as a whole value; any number of places), a
+    reference string of the first is replaced in the second by a closed value [w] which that
+    reference renders to against the first ([denotes]; by [C04_a_reference_denotes_what_it_renders_to]
+    one successful render of the reference anywhere is enough).  Then the inline twin renders,
+    with the same fuel, to the very same parameters.  (The converse direction cannot hold in
+    general: the twin resolves fewer references, so it may stay within the depth limit where
+    the original does not.)  Proof: a simulation of the eight mutually recursive functions of the
+    interpreter, call by call, Proofs/Twin.v. *)
+Theorem C04_the_inline_twin_renders_to_the_same_parameters :
+  forall root root', wf (VMap root) -> wf (VMap root') -> Forall2 (twe root) root root' ->
+    forall f r, render_with_self f (VMap root) = Ok r -> render_with_self f (VMap root') = Ok r.
+Proof. exact twin_renders_the_same. Qed.
+Eval cbv in "ASSUMPTIONS-OF C04_the_inline_twin_renders_to_the_same_parameters"%string. Print Assumptions C04_the_inline_twin_renders_to_the_same_parameters.
+
+(** ... and every value (a class name entry, a further parameter) renders against the twin to what
+    it renders to against the original, at every state. *)
+Theorem C04_values_render_alike_against_the_inline_twin :
+  forall root root', wf (VMap root) -> wf (VMap root') -> Forall2 (twe root) root root' ->
+    forall f v v' st r st1, tw root v v' -> wf v -> wf v' ->
+      interp f root v st = Ok (r, st1) -> exists st1', interp f root' v' st = Ok (r, st1').
+Proof. exact twin_value_renders_the_same. Qed.
+Eval cbv in "ASSUMPTIONS-OF C04_values_render_alike_against_the_inline_twin"%string. Print Assumptions C04_values_render_alike_against_the_inline_twin.
+
+Theorem C04_a_reference_denotes_what_it_renders_to :
+  forall root, wf (VMap root) -> forall s f st w st1,
+    interp f root (VStr s) st = Ok (w, st1) -> denotes root (VStr s) w.
+Proof. exact denotes_of_render. Qed.
+Eval cbv in "ASSUMPTIONS-OF C04_a_reference_denotes_what_it_renders_to"%string. Print Assumptions C04_a_reference_denotes_what_it_renders_to.
+
+(** Non-vacuity of the twin theorem: parameter t has three layers; the middle one holds, one level
+    down, a reference to h (itself a reference to g); the twin holds g's value there.  The
+    premises hold and the original renders. *)
+Example C04_twin_premises_hold :
+  let g := mk_entry (VStr "g") (VMap [mk_entry (VStr "a") (VSeq [VNum (NInt 2)]) false false]) false false in
+  let h := mk_entry (VStr "h") (VStr "${g}") false false in
+  let look := mk_entry (VStr "look") (VStr "${t:n:a}") false false in
+  let t x := mk_entry (VStr "t")
+               (VList [VMap [mk_entry (VStr "n") (VMap [mk_entry (VStr "a") (VSeq [VNum (NInt 1)]) false false]) false false];
+                       VMap [mk_entry (VStr "n") x false false];
+                       VMap [mk_entry (VStr "n") (VMap [mk_entry (VStr "a") (VSeq [VNum (NInt 3)]) false false]) false false]])
+               false false in
+  let root := [g; h; t (VStr "${h}"); look] in
+  let root' := [g; h; t (VMap [mk_entry (VStr "a") (VSeq [VNum (NInt 2)]) false false]); look] in
+  wf (VMap root) /\ wf (VMap root') /\ Forall2 (twe root) root root' /\
+  exists m, render_with_self 60 (VMap root) = Ok (VMap m) /\
+            m_get (VStr "look") m = Some (VSeq [VNum (NInt 1); VNum (NInt 2); VNum (NInt 3)]).
+Proof.
+  cbn zeta.
+  assert (W : wf (VMap [mk_entry (VStr "g") (VMap [mk_entry (VStr "a") (VSeq [VNum (NInt 2)]) false false]) false false;
+                        mk_entry (VStr "h") (VStr "${g}") false false;
+                        mk_entry (VStr "t")
+                          (VList [VMap [mk_entry (VStr "n") (VMap [mk_entry (VStr "a") (VSeq [VNum (NInt 1)]) false false]) false false];
+                                  VMap [mk_entry (VStr "n") (VStr "${h}") false false];
+                                  VMap [mk_entry (VStr "n") (VMap [mk_entry (VStr "a") (VSeq [VNum (NInt 3)]) false false]) false false]])
+                          false false;
+                        mk_entry (VStr "look") (VStr "${t:n:a}") false false])).
+  { cbn. repeat split; repeat constructor; cbn; intuition discriminate. }
+  split; [exact W|]. split; [cbn; repeat split; repeat constructor; cbn; intuition discriminate|]. split.
+  - constructor; [apply twe_refl|]. constructor; [apply twe_refl|]. constructor; [|constructor; [apply twe_refl | constructor]].
+    unfold twe. cbn [mk_entry e_key e_val e_const e_over fst snd]. repeat split.
+    apply tw_list_iff. eexists. split; [reflexivity|]. constructor; [apply tw_refl|]. constructor; [|constructor; [apply tw_refl | constructor]].
+    apply tw_map_iff. eexists. split; [reflexivity|]. constructor; [|constructor].
+    unfold twe. cbn [mk_entry e_key e_val e_const e_over fst snd]. repeat split.
+    right. eapply (denotes_of_render _ W "${h}" 40 st0). vm_compute. reflexivity.
+  - eexists. split; vm_compute; reflexivity.
+Qed.
 
 Example C04_nonvacuous :
   let h := mk_entry (VStr "h") (VMap [mk_entry (VStr "a") (VSeq [VNum (NInt 2)]) false false]) false false in
